@@ -4,9 +4,11 @@
      right to left; [walk_function] replaces an application by a fresh constant "ack%d" of the
      function's return type (one per distinct application, memoised in [_terms_dict]) and
      records the ORIGINAL argument tuple in [_funs_to_args].
-   - The functional-consistency implications are built from the ORIGINAL argument tuples: an
-     argument that is itself an application is replaced by its constant, any other argument is
-     used unchanged - applications nested inside it stay (the defect [ack_shape_refuted]).
+   - The functional-consistency implications are built from the recorded argument tuples, each
+     argument rewritten by [self.walk] (memoised: the result the walk already computed for it), so
+     applications nested anywhere inside an argument are replaced by their constants
+     (build/fixes/C11_ackermann_nested.diff; before it only arguments that were applications
+     themselves were replaced and f(f(x)+1) = x kept f(x)).
    - [_fresh_guess] and the symbol table are the manager's ([mstate] of models/Cnf.v), so the
      fresh names equal the implementation's.
    - The implication set and the conjunct sets are Python sets: order and the orientation of
@@ -71,15 +73,19 @@ Fixpoint ack_walk (t : term) (st : astate) {struct t} : term * astate :=
 
 (* ---- functional consistency ---- *)
 Definition is_app (t : term) : bool := match t with T (OFunction _ _) _ => true | _ => false end.
-(* "if term.is_function_application(): term = self._terms_dict[term]" *)
+(* self._terms_dict[app] *)
 Definition repl (st : astate) (t : term) : term :=
   if is_app t then match assoc_t t (terms st) with Some c => c | None => t end else t.
 (* FormulaManager.EqualsOrIff *)
 Definition eq_or_iff (a b : term) : term :=
   match tc a with Some TBool => T OIff [a; b] | _ => T OEquals [a; b] end.
 
+(* self.walk(term) after the walk: the memoised result; re-walking allocates nothing because
+   every application under the term already has its constant *)
+Definition sub (st : astate) (t : term) : term := fst (ack_walk t st).
+
 Definition implication (st : astate) (fn : var) (o1 o2 : list term) : term :=
-  let conj := dedupe term_eqb (map (fun p => eq_or_iff (repl st (fst p)) (repl st (snd p))) (combine o1 o2)) in
+  let conj := dedupe term_eqb (map (fun p => eq_or_iff (sub st (fst p)) (sub st (snd p))) (combine o1 o2)) in
   let app1 := T (OFunction (fst fn) (snd fn)) o1 in
   let app2 := T (OFunction (fst fn) (snd fn)) o2 in
   T OImplies [mk_and conj; eq_or_iff (repl st app1) (repl st app2)].
